@@ -12,7 +12,7 @@ inductive Err
   | executeWithFunds | loadFailed | inconvertibleBase | unsupportedQuote | totalOverflow
   | nonIntegerTotal | invalidFeeSize | askReady | askNotReady | askBidPriceMismatch
   | invalidExecutePrice | invalidExecuteSize | bidFeeAccountMissing | bidFeeInsufficient
-  | overflow | invalidPair | unsupportedUpgrade | semver | std | panic
+  | overflow | invalidPair | unsupportedUpgrade | semver | std | modifyWithFunds | panic
   deriving DecidableEq, Repr, Inhabited
 
 def Err.name : Err → String
@@ -27,7 +27,8 @@ def Err.name : Err → String
   | .invalidExecuteSize => "InvalidExecuteSize" | .bidFeeAccountMissing => "BidFeeAccountMissing"
   | .bidFeeInsufficient => "BidOrderFeeInsufficientFunds" | .overflow => "Overflow"
   | .invalidPair => "InvalidPricePrecisionSizePair" | .unsupportedUpgrade => "UnsupportedUpgrade"
-  | .semver => "SemverError" | .std => "Std" | .panic => "PANIC"
+  | .semver => "SemverError" | .std => "Std" | .modifyWithFunds => "ModifyWithFunds"
+  | .panic => "PANIC"
 
 inductive Res (α : Type) where
   | ok (a : α)
